@@ -76,3 +76,45 @@ Theorem C03_graph_refuted_untruthful_annotation :
   exists p m, run G p = Ok m /\ Taint.C03b m = false.
 Proof. exists untruthful_program. eexists. split; [vm_compute; reflexivity | vm_compute; reflexivity]. Qed.
 Print Assumptions C03_graph_refuted_untruthful_annotation.
+
+(* ---- program level: EVERY program of the scalar fragment (any number of statements: literals of the three
+   bases, inputs, random values, all twenty binary operators, ~, to_public, if_else, k + x).  Whenever the
+   trace + compile model yields a MIR, every output into which a secret input or a random value flows through
+   anything but the two declassifiers (public_equals, to_public) is typed secret in the MIR; and so is every
+   value the program binds, in the tracer and in the operation store. *)
+From NadaV.Model Require Import Surface Trace Compile.
+From NadaV.Proofs Require Import C03Rules C03Program.
+
+Theorem C03_scalar_programs_outputs : forall p m τ,
+  run GenScalar.G p = Ok m -> taint_stmts (p_stmts p) [] = Some τ ->
+  Forall2 (fun o mo => o_name mo = out_name o /\ o_party mo = out_party o
+                       /\ (assoc (out_var o) τ = Some true -> secret_ty (o_ty mo) = true))
+          (p_outs p) (m_outputs m).
+Proof. exact tainted_outputs_are_secret. Qed.
+Print Assumptions C03_scalar_programs_outputs.
+
+Theorem C03_scalar_programs_values : forall ss fuel ρ s τ,
+  exec GenScalar.G fuel [] ss init_state = Ok (ρ, s) -> taint_stmts ss [] = Some τ ->
+  forall x, assoc x τ = Some true ->
+  exists t id v, assoc x ρ = Some (BWrap (WScalar t id v)) /\ fst t = MSecret
+                 /\ forall i, id = Some i -> exists r, lookup i (store s) = Some r /\ secret_ty (r_ty r) = true.
+Proof. exact tainted_values_are_secret. Qed.
+Print Assumptions C03_scalar_programs_values.
+
+Definition c03_example : program :=
+  {| p_stmts := [SLet "s" (RInput "s" "P0" "" (IScalar (MSecret, BInt)));
+                 SLet "u" (RInput "u" "P0" "" (IScalar (MPublic, BInt)));
+                 SLet "k" (RLit BInt 2);
+                 SLet "a" (RBin OMul "u" "k");
+                 SLet "c" (RBin OLt "a" "s");
+                 SLet "r" (RIfElse "c" "u" "a");
+                 SLet "d" (RToPublic "r")];
+     p_outs := [{| out_name := "r"; out_party := "P0"; out_var := "r" |};
+                {| out_name := "a"; out_party := "P0"; out_var := "a" |};
+                {| out_name := "d"; out_party := "P0"; out_var := "d" |}] |}.
+Example C03_program_nonvacuous :
+  (exists m, run GenScalar.G c03_example = Ok m /\ map (fun o => o_ty o) (m_outputs m)
+                                                  = [TyName "SecretInteger"; TyName "Integer"; TyName "Integer"])
+  /\ taint_stmts (p_stmts c03_example) []
+     = Some [("d", false); ("r", true); ("c", true); ("a", false); ("k", false); ("u", false); ("s", true)].
+Proof. split; [eexists; split; [vm_compute; reflexivity | reflexivity] | vm_compute; reflexivity]. Qed.
